@@ -669,7 +669,7 @@ fn known_class(p: &Point, r: &RunResult, runtime: &[String]) -> Option<String> {
 }
 
 fn run_blocking(p: Point, tmo: &Timeouts) -> RunResult {
-    let rt = tokio::runtime::Builder::new_multi_thread().worker_threads(2).enable_all().build().unwrap();
+    let rt = tokio::runtime::Builder::new_multi_thread().worker_threads(4).enable_all().build().unwrap();
     let res = std::panic::catch_unwind(std::panic::AssertUnwindSafe(|| rt.block_on(run_point(p, tmo))));
     rt.shutdown_timeout(Duration::from_millis(200));
     match res {
@@ -722,7 +722,17 @@ fn main() {
     // about 1 of 15 runs); distinct answer delays keep the cases distinct
     for k in 1..=6u64 { corpus.push((base, k)); }
     struct Job { p: Point, kind: &'static str, delay_ms: u64 }
+    // kind "repeat": no retry (a race that hits half of the calls must not be retried away)
     let mut jobs_v: Vec<Job> = corpus.iter().filter(|(p, _)| p.valid()).map(|(p, d)| Job { p: *p, kind: "corpus", delay_ms: *d }).collect();
+    // repeated SDES calls (C10-F1 / seeded C10-2 family: the state task of the direct transport racing with
+    // set_remote_description / set_local_description): SRTP mode has no ICE/DTLS, a call costs ~30 ms; each runs on a
+    // 4-worker runtime; oracle as for every point (both Connected, never Failed, keys mirrored, RTP each way)
+    let n_repeat = if std::env::var("C10_SAMPLE").is_ok() || std::env::var("C10_POINT").is_ok() { 0 } else if thorough { 200 } else { 100 };
+    for k in 0..n_repeat {
+        let mix = [1usize, 2, 3][k % 3];
+        jobs_v.push(Job { p: Point { mode: 1, mix, mux: k % 2, mux_p: (k / 2) % 2, s_offers: true, ..base }, kind: "repeat",
+                          delay_ms: if k % 4 == 3 { 20 } else { 0 } });
+    }
     let cover = if let Some(n) = std::env::var("C10_SAMPLE").ok().and_then(|s| s.parse::<usize>().ok()) {
         (0..n).map(|_| lat[rng.below(lat.len() as u64) as usize]).collect()   // debugging aid: n random lattice points
     } else if thorough { lat.clone() } else { pairwise(&lat, &mut rng) };
@@ -744,7 +754,19 @@ fn main() {
         let delay_ms = if rng.chance(1, 3) { 50 + rng.below(201) } else { 0 };
         if seen.insert(p) { jobs_v.push(Job { p, kind: "random", delay_ms }); }
     }
-    let base_tmo = Timeouts { gather: Duration::from_secs(10), connect: Duration::from_secs(25), deliver: Duration::from_secs(4), deliver_data: Duration::from_secs(15), answer_delay: Duration::ZERO };
+    // quick: fail fast (a point that cannot connect must not cost minutes); thorough: generous
+    let base_tmo = if thorough {
+        Timeouts { gather: Duration::from_secs(10), connect: Duration::from_secs(25), deliver: Duration::from_secs(4), deliver_data: Duration::from_secs(15), answer_delay: Duration::ZERO }
+    } else {
+        Timeouts { gather: Duration::from_secs(6), connect: Duration::from_secs(10), deliver: Duration::from_secs(3), deliver_data: Duration::from_secs(12), answer_delay: Duration::ZERO }
+    };
+    // the single retry of a failed point uses shorter timeouts still
+    let retry_tmo = Timeouts { gather: Duration::from_secs(6), connect: Duration::from_secs(if thorough { 15 } else { 8 }),
+                               deliver: Duration::from_secs(3), deliver_data: Duration::from_secs(8), answer_delay: Duration::ZERO };
+    // budget: once this many points have failed (after their retry) or this much time has passed, the remaining RANDOM
+    // points are skipped (corpus, repeat scenario and covering array always run); the evidence says so
+    let max_failed: usize = if thorough { usize::MAX } else { 10 };
+    let budget = if thorough { Duration::from_secs(6 * 3600) } else { Duration::from_secs(240) };
     // debugging aids: C10_POINT="mode mix bundle mux lite tcp udpmux latching compat s_offers mux_p compat_p tcp_only dcep" runs one point and
     // prints its SDP; C10_ONLY=<mode name> restricts the run to one transport mode
     if let Ok(spec) = std::env::var("C10_POINT") {
@@ -766,26 +788,36 @@ fn main() {
     let results: Arc<Mutex<Vec<Option<(RunResult, u32, Option<String>)>>>> = Arc::new(Mutex::new(vec![None; jobs_v.len()]));
     let jobs_a = Arc::new(jobs_v);
     let t_all = Instant::now();
+    let failed = Arc::new(AtomicUsize::new(0));
+    let skipped = Arc::new(AtomicUsize::new(0));
     let mut hs = Vec::new();
     for _ in 0..n_workers {
         let (next, results, jobs_a, base_tmo) = (next.clone(), results.clone(), jobs_a.clone(), base_tmo.clone());
+        let (failed, skipped, retry_tmo) = (failed.clone(), skipped.clone(), retry_tmo.clone());
         hs.push(std::thread::spawn(move || loop {
             let i = next.fetch_add(1, Ordering::SeqCst);
             if i >= jobs_a.len() { break; }
             let p = jobs_a[i].p;
+            let kind = jobs_a[i].kind;
+            if kind == "random" && (failed.load(Ordering::SeqCst) >= max_failed || t_all.elapsed() > budget) {
+                skipped.fetch_add(1, Ordering::SeqCst);
+                continue;
+            }
             let tmo = Timeouts { answer_delay: Duration::from_millis(jobs_a[i].delay_ms), ..base_tmo.clone() };
             let mut r = run_blocking(p, &tmo);
             let mut tries = 1;
             let mut first = None;
-            let (l, rt) = oracle(&p, &r);
-            if (!l.is_empty() || !rt.is_empty()) && known_class(&p, &r, &rt).is_none() {
-                // retry once before reporting (sockets / timers are runtime)
+            let (mut l, mut rt) = oracle(&p, &r);
+            if (!l.is_empty() || !rt.is_empty()) && known_class(&p, &r, &rt).is_none() && kind != "repeat" {
+                // retry once before reporting (sockets / timers are runtime), with short timeouts
                 first = Some(format!("{} [{}]", l.iter().chain(rt.iter()).cloned().collect::<Vec<_>>().join("; "), r.diag.clone().unwrap_or_default()));
-                let r2 = run_blocking(p, &tmo);
+                let tmo2 = Timeouts { answer_delay: tmo.answer_delay, ..retry_tmo.clone() };
+                let r2 = run_blocking(p, &tmo2);
                 tries = 2;
                 let (l2, rt2) = oracle(&p, &r2);
-                if l2.len() + rt2.len() <= l.len() + rt.len() { r = r2; }
+                if l2.len() + rt2.len() <= l.len() + rt.len() { r = r2; l = l2; rt = rt2; }
             }
+            if (!l.is_empty() || !rt.is_empty()) && known_class(&p, &r, &rt).is_none() { failed.fetch_add(1, Ordering::SeqCst); }
             results.lock().unwrap()[i] = Some((r, tries, first));
         }));
     }
@@ -805,7 +837,7 @@ fn main() {
     let mut failing = Vec::new();
     for (i, job) in jobs_a.iter().enumerate() {
         let p = &job.p;
-        let (r, tries, first) = results[i].clone().unwrap();
+        let Some((r, tries, first)) = results[i].clone() else { continue };   // skipped (budget)
         let (logic, runtime) = oracle(p, &r);
         if tries > 1 { retried.push(json!({"point": p.json(), "first_try": first})); }
         if job.delay_ms > 0 { n_delayed += 1; }
@@ -839,13 +871,16 @@ fn main() {
             oracle_fail: fail,
             known,
             nontrivial: r.connected,
-            key: format!("{}/{}", p.key(), job.delay_ms),
+            key: if job.kind == "repeat" { format!("{}/{}/#{}", p.key(), job.delay_ms, i) } else { format!("{}/{}", p.key(), job.delay_ms) },
             kind: job.kind.to_string(),
         });
     }
     out.finish(json!({"generator": {
         "tier": args.tier, "seed": args.seed, "lattice_points": lat.len(), "corpus": corpus.len(),
-        "covering_array_points": n_cover, "random_points": n_random, "points_run": jobs_a.len(), "with_late_answer": n_delayed, "workers": n_workers,
+        "covering_array_points": n_cover, "random_points": n_random, "repeated_sdes_calls": n_repeat,
+        "random_points_skipped_by_budget": skipped.load(Ordering::SeqCst),
+        "budget": {"max_failed_points_before_skipping_random": if thorough { json!(null) } else { json!(max_failed) }, "seconds": budget.as_secs(),
+                   "retry_connect_timeout_s": retry_tmo.connect.as_secs()}, "points_run": jobs_a.len(), "with_late_answer": n_delayed, "workers": n_workers,
         "exploration": {"connected": n_connected, "logic_failures": n_logic, "runtime_failures": n_runtime,
                         "listed_finding_hits": n_known, "retried": retried, "slowest_connect_ms": slowest, "slowest_data_roundtrip_ms": slowest_data, "wall_s": wall.as_secs(),
                         "per_mode_points_and_clean": by_mode, "failing_points": failing},
